@@ -402,6 +402,40 @@ pub fn run(tier: Tier) -> i32 {
         singles.push(A::ns_node(p, u));
     }
     singles.extend([A::text("t"), A::comment("c"), A::pi("pi", None), A::doc(vec![]), A::doc(vec![A::comment("c")])]);
+    // declarations with an empty value on a prefix (the parser accepts xmlns:p="", the API set_namespace(p, no
+    // namespace)): chains a > b > c, every element with one of 8 declaration sets
+    let undecl_menu: Vec<Vec<(&str, &str)>> = vec![
+        vec![],
+        vec![("p", X)],
+        vec![("p", "")],
+        vec![("xml", "")],
+        vec![("xml", XML_NS)],
+        vec![("p", ""), ("", X)],
+        vec![("p", Y)],
+        vec![("xml", ""), ("p", X)],
+    ];
+    let un = undecl_menu.len() as u64;
+    let undecl_total = un * un * un * 2;
+    let with = |name: &str, set: &Vec<(&str, &str)>| {
+        let mut e = A::el("", name);
+        for (p, u) in set {
+            e = e.decl(p, u);
+        }
+        e
+    };
+    let undecl = par_range(&ctx, undecl_total, |i, st| {
+        let d = mixed(&[un as usize, un as usize, un as usize, 2], i);
+        let c = with("c", &undecl_menu[d[2]]);
+        let b = with("b", &undecl_menu[d[1]]).child(c);
+        let a = with("a", &undecl_menu[d[0]]).child(b);
+        let case = Case { tree: a, attached: d[3] == 0 };
+        let fails = eval_case(&case, st);
+        st.bump("prefix_undeclaration_layouts");
+        st.outcome(&case.tree.canon());
+        for f in fails {
+            st.fail(&case, f);
+        }
+    });
     let extra = par_range(&ctx, five + singles.len() as u64, |i, st| {
         let case = if i < five {
             let d = mixed(&[tn as usize; 5], i);
@@ -431,13 +465,13 @@ pub fn run(tier: Tier) -> i32 {
             st.fail(&case, f);
         }
     });
-    let stats = stats.merge(extra);
-    if let Err(e) = require_nonzero(&stats, &["layouts", "five_element_layouts", "unattached_single_nodes", "full_name_ok", "unresolved_nonempty", "inherited_nonempty"]) {
+    let stats = stats.merge(extra).merge(undecl);
+    if let Err(e) = require_nonzero(&stats, &["layouts", "five_element_layouts", "prefix_undeclaration_layouts", "unattached_single_nodes", "full_name_ok", "unresolved_nonempty", "inherited_nonempty"]) {
         eprintln!("MACHINERY: {}", e);
         return 2;
     }
     let cov = json!({
-        "rule": "namespace layouts: 1 element (540 specs: default in {-,X,Y,\"\"} x p in {-,X,Y} x q in {-,X,Y} x element namespace in {none,X,Y} x attribute in {absent, k, {X}k, {Y}k, xml:space}), chains of 2 (540^2), chains of 3 and forks of 3 (quick: reduced 72-spec menu cubed; thorough: 540 x 144 x 144); the five-element shape root > r > [a > x, b] over a 12-spec menu (thorough: 24); unattached attribute, namespace, text, comment, PI and document nodes (names k / id / space in no namespace, X and the XML namespace); attached under a document and (1-2 elements) unattached; every node incl. attribute / namespace / document nodes x prefixes {\"\",p,q,xml,r} x namespaces {X,Y,XML,Z}; distinct = distinct canonical layouts (counted over all indices when the space has <= 8M layouts, else over every 97th index: a measured lower bound)",
+        "rule": "namespace layouts: 1 element (540 specs: default in {-,X,Y,\"\"} x p in {-,X,Y} x q in {-,X,Y} x element namespace in {none,X,Y} x attribute in {absent, k, {X}k, {Y}k, xml:space}), chains of 2 (540^2), chains of 3 and forks of 3 (quick: reduced 72-spec menu cubed; thorough: 540 x 144 x 144); the five-element shape root > r > [a > x, b] over a 12-spec menu (thorough: 24); chains of 3 over 8 declaration sets with empty values on prefixes (p=\"\", xml=\"\", next to p=X, p=Y, xml=XML, default X), attached and unattached; unattached attribute, namespace, text, comment, PI and document nodes (names k / id / space in no namespace, X and the XML namespace); attached under a document and (1-2 elements) unattached; every node incl. attribute / namespace / document nodes x prefixes {\"\",p,q,xml,r} x namespaces {X,Y,XML,Z}; distinct = distinct canonical layouts (counted over all indices when the space has <= 8M layouts, else over every 97th index: a measured lower bound)",
         "total_layouts": tot,
     });
     ctx.finish(stats, cov, vec!["hash iteration order observed, not controlled: results compared as sets / maps".into()])
